@@ -200,6 +200,10 @@ func (ch *channel) SendAndClose(ctx async.Context, data []byte) status.Status {
 // Receive receives and returns a message, or an end status.
 func (ch *channel) Receive(ctx async.Context) ([]byte, status.Status) {
 	for {
+		// Get the wait channel before polling, a message queued between
+		// the poll and the wait must not be missed.
+		wait := ch.ReceiveWait()
+
 		// Poll channel
 		data, ok, st := ch.ReceiveAsync(ctx)
 		switch {
@@ -213,7 +217,7 @@ func (ch *channel) Receive(ctx async.Context) ([]byte, status.Status) {
 		select {
 		case <-ctx.Wait():
 			return nil, ctx.Status()
-		case <-ch.ReceiveWait():
+		case <-wait:
 		}
 	}
 }
